@@ -67,7 +67,7 @@ class Layout:
 
 
 def build(tables, file_objects=None, *, hdr_seqs=(2, 1), sigs=None, version=0x400, extra_objects=(), objtab_chain=False,
-          table_size=0x1000, more_objtabs=None, stale_header_differs=True):
+          table_size=0x1000, more_objtabs=None, stale_header_differs=True, chain=1, chain_rng=None):
     """tables: list of {"idx", "seq", "entries": [bytes...]} in object-table order (entries already encoded, with resolved
     parent offsets).  file_objects: {offset_placeholder_key: bytes} handled by the caller through Layout.
     Returns bytes."""
@@ -85,6 +85,18 @@ def build(tables, file_objects=None, *, hdr_seqs=(2, 1), sigs=None, version=0x40
         out[off] = data.ljust(osize, b"\0")
         objs.append((OBJ_FILE, off, osize, 1))
     objs += list(extra_objects)
+    more_objtabs = dict(more_objtabs or {})
+    if chain > 1 and len(objs) >= chain:
+        # distribute the objects over a chain of object tables: table i lists its share and the next object table
+        if chain_rng:
+            chain_rng.shuffle(objs)
+        end0 = -(-max([o + len(b) for o, b in out.items()] + [0x4000]) // 0x1000) * 0x1000
+        offs = [0x2000] + [end0 + 0x1000 * (2 * k + 1) for k in range(chain - 1)]
+        parts = [objs[k::chain] for k in range(chain)]
+        for k in range(chain - 1, 0, -1):
+            ents = parts[k] + ([(OBJ_OBJTAB, offs[k + 1], 0x1000, 1)] if k + 1 < chain else []) + [(OBJ_FREE, 0, 0, 0)]
+            more_objtabs[offs[k]] = ents
+        objs = parts[0] + [(OBJ_OBJTAB, offs[1], 0x1000, 1)]
     objs.append((OBJ_FREE, 0, 0, 0))
     ot = struct.pack("<II", sigs.get("objtab", SIG_OBJTAB), len(objs))
     for typ, off, size, alloc in objs:
@@ -110,7 +122,7 @@ def build(tables, file_objects=None, *, hdr_seqs=(2, 1), sigs=None, version=0x40
     return bytes(buf)
 
 
-def plan_tables(nodes, *, ntables_free=(), stale=(), newer_first=True, big_threshold=0x800, pad_rng=None):
+def plan_tables(nodes, *, ntables_free=(), stale=(), newer_first=True, big_threshold=0x800, pad_rng=None, flag_rng=None):
     """nodes: list of {"id", "parent" (id or 0), "tbl", "key", "type", "value"} (parents before children).
     Lays the entries out per table (with optional free entries), resolves parent references to (table index, entry
     offset) and returns (tables in object-table order, file_objects, layout)."""
@@ -140,6 +152,8 @@ def plan_tables(nodes, *, ntables_free=(), stale=(), newer_first=True, big_thres
                 file_objects.append((fo_off, data, fo_size))
                 payload = struct.pack("<IQ", len(data), fo_off)
                 flags = 1
+            if flag_rng is not None and n["type"] in (T_STRING, T_ARRAY) and flag_rng.random() < 0.5:
+                flags |= 0x02   # a flag bit real files carry on string entries next to the file-object bit; readers test bits
             pad = pad_rng.randrange(0, 16) if pad_rng else (12 if n["type"] in (T_INT, T_UINT, T_DOUBLE, T_BOOL) else 0)
             kb = len(n["key"].encode("utf-8")) + 1
             size = 21 + kb + len(payload) + pad
